@@ -1564,6 +1564,11 @@ fn probe_step(args: &Args) {
                 signal_hook::low_level::pipe::register(sig, pw).unwrap();
                 let mut signals = Some(Signals::new(&[sig]).unwrap());
                 let mut raw = SignalsInfo::<WithRawSiginfo>::new(&[sig]).unwrap();
+                // an iterator back-end over our own socket pair: the read end stays visible
+                let (dr, dw) = std::os::unix::net::UnixStream::pair().unwrap();
+                let mut delivery = signal_hook::iterator::backend::SignalDelivery::with_pipe(
+                    dr, dw, signal_hook::iterator::exfiltrator::SignalOnly::default(), &[sig, libc::SIGWINCH]).unwrap();
+                let mut got_d: Vec<c_int> = Vec::with_capacity(16);
                 let cond = Arc::new(AtomicBool::new(true));
                 signal_hook::flag::register_conditional_default(sig, Arc::clone(&cond)).unwrap();
                 let shut = Arc::new(AtomicBool::new(false));
@@ -1611,6 +1616,9 @@ fn probe_step(args: &Args) {
                     pre_deliveries = 2;
                     drain_count(pr.as_raw_fd());
                 }
+                if op == "delivery_pending" {
+                    unsafe { libc::raise(libc::SIGWINCH) };
+                }
                 STRIDE.store(stride, Ordering::SeqCst);
                 OFFSET.store(args.num("offset", 0), Ordering::SeqCst);
                 FROM.store(args.num("from", 0), Ordering::SeqCst);
@@ -1649,6 +1657,11 @@ fn probe_step(args: &Args) {
                     }
                     "add_signal" => {
                         let _ = signals.as_ref().unwrap().handle().add_signal(libc::SIGUSR2);
+                    }
+                    "delivery_pending" => {
+                        for s in delivery.pending() {
+                            got_d.push(s);
+                        }
                     }
                     "emulate_first" => {
                         let _ = signal_hook::low_level::emulate_default_handler(libc::SIGWINCH);
@@ -1720,6 +1733,17 @@ fn probe_step(args: &Args) {
                 }
                 for _ in raw.pending() { got_raw += 1; }
                 if got_raw != pre_deliveries + 1 { bad.push("raw_records_not_one_per_delivery"); }
+                // the back-end over our own pair: a delivered signal the scan did not report must have
+                // its wake-up byte outstanding (a blocking reader would otherwise sleep on it)
+                {
+                    let reported = got_d.contains(&sig);
+                    let mut pfd = libc::pollfd { fd: delivery.get_read().as_raw_fd(), events: libc::POLLIN, revents: 0 };
+                    let readable = unsafe { libc::poll(&mut pfd, 1, 0) } == 1 && pfd.revents & libc::POLLIN != 0;
+                    if !reported && !readable { bad.push("unreported_signal_without_wakeup"); }
+                    for s in delivery.pending() { got_d.push(s); }
+                    if !got_d.contains(&sig) { bad.push("iterator_lost_the_signal"); }
+                    if got_d.iter().filter(|s| **s == sig).count() > 1 { bad.push("iterator_invented_a_signal"); }
+                }
                 // the library still works afterwards, and the operation took effect
                 unsafe { libc::raise(sig) };
                 if pre.load(Ordering::SeqCst) != pre_deliveries + 2 { bad.push("later_delivery_wrong"); }
@@ -1729,6 +1753,7 @@ fn probe_step(args: &Args) {
                 drain_count(pr.as_raw_fd());
                 if let Some(sg) = signals.as_mut() { for _ in sg.pending() {} }
                 for _ in raw.pending() {}
+                for _ in delivery.pending() {}
                 let line = if bad.is_empty() {
                     format!("{} ok\n", k)
                 } else {
